@@ -146,10 +146,15 @@ RowBad(e) == \/ DOMAIN e.vals # DOMAIN val \ EmitOff
 
 RowDue == emitStep = 1 \/ emitNext <= now
 
+\* C12: the emitter has received exactly one configuration record, and it came
+\* before the first row
+ConfigBad(e) == e.cfg # 1
+
 RowFails(e) ==
   IF pc = "cemit" \/ (pc = "emit" /\ RowDue) THEN
        (IF e.time # now THEN {"row_time"} ELSE {})
        \cup (IF RowBad(e) THEN {"row_content"} ELSE {})
+       \cup (IF ConfigBad(e) THEN {"config_record"} ELSE {})
   ELSE IF pc = "emit" THEN {"row_unexpected"}
   ELSE IF pc = "loop" /\ rowsAt = 1 /\ emitStep # 1 THEN
        \* a repeated, identical row for a further deadline that has passed
